@@ -161,10 +161,10 @@ def coq_sources():
     return sorted(out)
 
 
-def coq_hygiene():
-    """grep for forbidden vernacular in every .v of the development."""
+def coq_hygiene(files=None):
+    """grep for forbidden vernacular in the given .v files (default: the whole development)."""
     bad = []
-    for p in coq_sources():
+    for p in (coq_sources() if files is None else [os.path.join(COQ, f) for f in files]):
         text = open(p).read()
         text = re.sub(r"\(\*.*?\*\)", "", text, flags=re.S)
         for m in FORBIDDEN.finditer(text):
@@ -451,10 +451,12 @@ class Ctx:
         """Build the Coq development incrementally and check that the property file
         (theories/Properties/Cxx.v) and everything it depends on compiled; capture
         its Print Assumptions output.  Returns dict(ok, log, assumptions, cone)."""
-        bad = coq_hygiene()
-        if bad:
-            return {"ok": False, "log": "forbidden vernacular: " + "; ".join(bad), "assumptions": [], "cone": [], "hygiene": bad}
         rel = os.path.join("theories", "Properties", prop_file)
+        cone = coq_deps(rel)
+        bad = coq_hygiene(cone)
+        if bad:
+            self.proof = {"ok": False, "log": "forbidden vernacular: " + "; ".join(bad), "assumptions": [], "cone": cone, "hygiene": bad, "missing": []}
+            return self.proof
         ok, log = coq_make([vo_of(rel)])
         cone = coq_deps(rel)
         missing = [f for f in cone if not os.path.exists(os.path.join(COQ, vo_of(f)))
